@@ -186,6 +186,23 @@ def columnfile_case(run, seed, idx, columnfile, parameters):
         run.count("hdf_overwrites_same_length")
         if not all(np.array_equal(np.asarray(b.getcolumn(t), float), np.asarray(same.getcolumn(t), float)) for t in titles):
             V("hdf:overwrite-same-length", "overwriting a group with same-length data does not read back the new data")
+        # one object reused for another file (obj.readfile(other)): it then holds the other file, whatever it held before
+        with contextlib.redirect_stdout(io.StringIO()):
+            obj = columnfile.columnfile(os.path.join(d, "c0.flt"))           # holds the first data set
+            obj.readfile(h5)                                                 # now the HDF5 group written last
+        run.count("object_reused_for_another_file")
+        if set(obj.titles) != set(titles) or obj.nrows != n or not all(
+                np.array_equal(np.asarray(obj.getcolumn(t), float), np.asarray(same.getcolumn(t), float)) and
+                np.array_equal(np.asarray(getattr(obj, t), float), np.asarray(same.getcolumn(t), float)) for t in titles):
+            V("reused-object:text-then-hdf", "a columnfile that had read a text file and then readfile(<hdf5 file>) does not hold "
+              "the columns of the HDF5 file")
+        else:
+            with contextlib.redirect_stdout(io.StringIO()):
+                obj.readfile(os.path.join(d, "c0.flt"))
+            fresh = columnfile.columnfile(os.path.join(d, "c0.flt"))
+            if list(obj.titles) != list(fresh.titles) or not all(
+                    np.array_equal(np.asarray(obj.getcolumn(t), float), np.asarray(fresh.getcolumn(t), float)) for t in fresh.titles):
+                V("reused-object:hdf-then-text", "a columnfile reused for a text file after an HDF5 file differs from a fresh read")
         import h5py
         for variant in ("longer", "shorter", "resizable-longer", "resizable-shorter"):
             if "shorter" in variant and n < 2:
@@ -461,6 +478,78 @@ def sparse_case(run, seed, idx, sparseframe):
         shutil.rmtree(d, ignore_errors=True)
 
 
+def schema_case(run, seed, idx, parameters):
+    """the json way of keeping parameters: AnalysisSchema splits a parameter set into one geometry .par and one .par per
+    phase and merges them again on request; several exports are made from ONE schema object, in any order, and every file
+    that is written reads back as the dictionary it was made from"""
+    import contextlib, io
+    r = rng(seed, "C18", "schema", idx)
+    geo = {"chi": 0.0, "distance": float(r.uniform(1e5, 3e5)), "fit_tolerance": 0.05, "no_bins": int(r.integers(100, 20000)),
+           "o11": int(r.choice([-1, 1])), "o12": 0, "o21": 0, "o22": int(r.choice([-1, 1])), "omegasign": float(r.choice([-1.0, 1.0])),
+           "t_x": 0.0, "t_y": float(r.normal() * 10), "t_z": 1e-12, "tilt_x": float(r.normal() * 1e-3), "wavelength": float(r.uniform(0.1, 0.9)),
+           "wedge": -0.0, "y_center": float(r.uniform(900, 1100)), "y_size": 75.0, "z_center": float(r.uniform(900, 1100)),
+           "z_size": 75.0, "detector": "eiger"}
+    def phase(k):
+        a = float(r.uniform(2.5, 6))
+        d_ = {"cell__a": a, "cell__b": a, "cell__c": float(r.uniform(2.5, 6)), "cell_alpha": 90.0, "cell_beta": 90.0, "cell_gamma": 90.0,
+              "cell_lattice_[P,A,B,C,I,F,R]": [225, "I", "P", 194][int(r.integers(4))]}
+        if r.random() < 0.5:
+            d_["phase_name"] = "ph%d" % k          # some phase files carry extra keys that others lack
+        return d_
+    names = ["alpha", "beta", "gamma"][: int(r.integers(2, 4))]
+    phases = {nm: phase(k) for k, nm in enumerate(names)}
+    desc = dict(index=idx, kind="schema", phases=names)
+    run.case(("schema", tuple(names), idx), nontrivial=True, sample=desc if idx < 2 else None)
+
+    def readpars(fn):
+        q = parameters.parameters()
+        q.loadparameters(fn)
+        return dict(q.get_parameters())
+
+    def same(what, got, want):
+        if {k: (type(v).__name__, repr(v)) for k, v in got.items()} != {k: (type(v).__name__, repr(v)) for k, v in want.items()}:
+            extra = sorted(set(got) - set(want))
+            diff = [k for k in want if k in got and repr(got[k]) != repr(want[k])]
+            run.violation("schema:" + what.split(":")[0], "%s does not read back as the dictionary it was made from (names never "
+                          "written: %r, missing: %r, changed: %r)" % (what, extra[:4], sorted(set(want) - set(got))[:4], diff[:4]), desc)
+            return False
+        return True
+    d = tmpd()
+    cwd = os.getcwd()
+    try:
+        os.chdir(d)
+        with contextlib.redirect_stdout(io.StringIO()):
+            asc = parameters.AnalysisSchema.from_geom_and_phase_dict(dict(geo), dict(phases[names[0]]), names[0])
+            for nm in names[1:]:
+                asc.add_phase_from_dict(nm, dict(phases[nm]))
+            os.mkdir("first")
+            asc.save(os.path.join("first", "pars.json"))
+            asc2 = parameters.AnalysisSchema(os.path.join("first", "pars.json"))
+            # exports from one object in a random order: per phase, geometry only, per phase again
+            order = [names[i] for i in r.permutation(len(names))] + [None] + [names[int(r.integers(len(names)))]]
+            ok = True
+            for k, ph in enumerate(order):
+                fn = "old_%d.par" % k
+                if ph is None:
+                    asc2.to_old_pars_file(fn)
+                else:
+                    asc2.to_old_pars_file(fn, phase_name=ph)
+                run.count("schema_exports")
+                want = dict(geo) if ph is None else dict(geo, **phases[ph])
+                ok = same("old-style-export: export %d (%s) after %r" % (k, ph or "geometry only", order[:k]), readpars(fn), want) and ok
+            os.mkdir("second")
+            asc2.save(os.path.join("second", "pars.json"))
+        same("second-save: geometry.par written by save() after the exports", readpars(os.path.join("second", "geometry.par")), geo)
+        for nm in names:
+            same("second-save: %s.par written by save() after the exports" % nm, readpars(os.path.join("second", nm + ".par")), phases[nm])
+    except Exception as e:
+        run.count("schema_route_raised")
+        run.extra.setdefault("schema_route_raised", "%s: %s" % (type(e).__name__, str(e)[:300]))
+    finally:
+        os.chdir(cwd)
+        shutil.rmtree(d, ignore_errors=True)
+
+
 def check(run, replay=None):
     from ImageD11 import columnfile, parameters, grain, indexing, sparseframe
     from .. import c18_more
@@ -473,6 +562,8 @@ def check(run, replay=None):
             parameters_case(run, replay["seed"], cs["index"], parameters, indexing)
         elif k == "grains":
             grains_case(run, replay["seed"], cs["index"], grain, indexing)
+        elif k == "schema":
+            schema_case(run, replay["seed"], cs["index"], parameters)
         elif k == "hdf-history":
             c18_more.hdf_history_case(run, replay["seed"], cs["index"], columnfile, tmpd, gen_values)
         elif k == "grain-h5-history":
@@ -492,6 +583,8 @@ def check(run, replay=None):
         parameters_case(run, run.seed, i, parameters, indexing)
     for i in range(n["gr"]):
         grains_case(run, run.seed, i, grain, indexing)
+    for i in range(n["par"] // 6):
+        schema_case(run, run.seed, i, parameters)
     for i in range(n["sp"]):
         sparse_case(run, run.seed, i, sparseframe)
     m = dict(hh=60, gh=30, tx=60, sh=30) if run.tier == "quick" else dict(hh=3000, gh=1500, tx=3000, sh=1500)
@@ -512,6 +605,7 @@ def check(run, replay=None):
     run.require_counter("hdf_roundtrips", 50)
     run.require_counter("parameter_values_checked", 200)
     run.require_counter("parameter_files_through_indexer", 20)
+    run.require_counter("schema_exports", 50)
     run.require_counter("parameter_ints_beyond_2^53", 5)
     run.require_counter("grain_text_roundtrips", 30)
 
